@@ -27,19 +27,40 @@ impl New for SimApp {
 impl Application for SimApp {
     fn execute(&self, request: &Request, connection: &ConnectionInfo) -> Result<Response, String> {
         let port = connection.client.port;
-        let fail = {
+        let id = (port - 10000) as usize;
+        let (fail, panic) = {
             let st = world().st.lock().unwrap();
-            let id = (port - 10000) as usize;
-            id < st.conns.len() && st.conns[id].faults.handler_err
+            if id < st.conns.len() { (st.conns[id].faults.handler_err, st.conns[id].faults.handler_panic) } else { (false, None) }
         };
+        if let Some(formatted) = panic {
+            world().with(|st| {
+                st.conns[id].fired.push("handler_panic".into());
+                st.log("handler_panic", id, formatted as u64);
+                st.reach("handler_panic_path");
+            });
+            if formatted {
+                panic!("simulated application panic on connection {}", id);
+            } else {
+                panic!("simulated application panic");
+            }
+        }
         if fail {
             world().with(|st| {
-                let id = (port - 10000) as usize;
                 st.conns[id].fired.push("handler_err".into());
                 st.log("handler_err", id, 0);
                 st.reach("handler_error_path");
             });
-            return Err("simulated application failure".to_string());
+            // error texts of every length, ASCII and not (they end up in the 400 page)
+            let k = (id as u64).wrapping_mul(31).wrapping_add(world().sc.index.wrapping_mul(7));
+            let msg = match k % 6 {
+                0 => "simulated application failure".to_string(),
+                1 => String::new(),
+                2 => "x".repeat(200 + (k % 400) as usize),
+                3 => format!("{}{}", "a".repeat((k % 3) as usize), "\u{e9}\u{4e16}\u{1f600}".repeat(40 + (k % 60) as usize)),
+                4 => "failure: \u{434}\u{43e}\u{43a}\u{443}\u{43c}\u{435}\u{43d}\u{442} /tmp/\u{fc}\u{ef}.txt".to_string(),
+                _ => format!("line one\r\nX-Injected: {}\r\n\r\nbody", k),
+            };
+            return Err(msg);
         }
         App::new().execute(request, connection)
     }
